@@ -963,3 +963,191 @@ def gen_tailcall_operand_conditionals(rng):
     return {"pieces": [defs, "(list %s)" % " ".join(obs)],
             "module": defs + "\n" + "\n".join("(displayln %s)" % o for o in obs) + "\n",
             "features": ["tailcall-operand-conditionals"]}
+
+
+# ---------------------------------------------------------------------------------------------------------
+# Globals that HOLD A BUILT-IN (not a lambda), called from procedures compiled while they hold it, assigned later
+# (another built-in, a lambda, back again), the callers invoked first-class (map, apply, taken out of a list, from
+# a caller too large to inline) before and after every assignment.  "Later pieces assign globals that earlier
+# compiled procedures call" for the one kind of global the procedure histories above never make: native code
+# must look the slot up at call time whatever it held when the caller was compiled.
+
+BUILTIN_ALIASES = {
+    # arity 1 on a list argument
+    1: ["car", "cdr", "length", "reverse", "list", "null?", "last", "(lambda (l) (cons 'lam l))", "cadr", "vector"],
+    # arity 2 on two integers
+    2: ["+", "-", "*", "list", "cons", "max", "min", "vector", "(lambda (a b) (list 'lam b a))", "quotient"],
+}
+
+
+def gen_builtin_alias_history(rng):
+    na = rng.randint(1, 2)
+    aliases = []
+    for k in range(na):
+        ar = rng.choice([1, 1, 2])
+        aliases.append(("a%d" % k, ar))
+    defs = []
+    for name, ar in aliases:
+        defs.append("(define %s %s)" % (name, rng.choice([b for b in BUILTIN_ALIASES[ar] if not b.startswith("(")])))
+    users = []
+    for j in range(rng.randint(1, 3)):
+        name, ar = rng.choice(aliases)
+        call = "(%s x)" % name if ar == 1 else "(%s (car x) (cadr x))" % name
+        shape = rng.random()
+        if shape < 0.55:
+            body = "(list 'r%d %s)" % (j, call)                      # non-tail call of the global
+        elif shape < 0.7:
+            body = call                                               # tail call
+        elif shape < 0.85:
+            body = "(let ((v %s)) (cons v (list %s)))" % (call, call)
+        else:
+            body = "(if (null? x) 'none (cons 'c %s))" % call
+        users.append(("u%d" % j, "(define (u%d x) %s)" % (j, body)))
+    defs += [u[1] for u in users]
+    defs.append("(define data (list (list 1 2 3) (list 4 5 6)))")
+    defs.append("(define (call f . args) (apply f args))")
+    # a caller that is too large to be inlined and calls the users directly
+    defs.append("(define (big x) (let* ((p (list %s)) (q (map (lambda (y) y) p)) (n (length q))) (if (> n 0) (list n q (reverse q) (length (append q q))) (list 0 q q 0))))"
+                % " ".join("(%s x)" % u[0] for u in users))
+
+    def observe():
+        out = []
+        for u, _ in users:
+            k = rng.random()
+            if k < 0.4:
+                out.append("(map %s data)" % u)
+            elif k < 0.6:
+                out.append("(call %s (car data))" % u)
+            elif k < 0.8:
+                out.append("((car (list %s)) (cadr data))" % u)
+            else:
+                out.append("(%s (car data))" % u)
+        if rng.random() < 0.6:
+            out.append("(big (car data))")
+        return "(list %s)" % " ".join(out)
+
+    single_unit = rng.random() < 0.35
+    pieces = ["\n".join(defs), observe()]
+    for _ in range(rng.randint(2, 4)):
+        name, ar = rng.choice(aliases)
+        how = rng.random()
+        new = rng.choice(BUILTIN_ALIASES[ar])
+        if how < 0.8:
+            pieces.append("(set! %s %s)" % (name, new))
+        else:
+            pieces.append("(define %s %s)" % (name, new))
+        pieces.append(observe())
+    if single_unit:
+        pieces = ["\n".join(pieces)]
+    return {"pieces": pieces, "features": ["builtin-alias-assigned-later"],
+            "module": "\n".join("(displayln %s)" % p if p.startswith("(list ") else p for piece in pieces for p in piece.split("\n")) + "\n"}
+
+
+# ---------------------------------------------------------------------------------------------------------
+# Non-local control inside SMALL procedures that an inliner may copy into their caller: `return!` (leaves the
+# procedure it is written in - copied into a caller it would leave the caller), an escape through call/cc, an
+# error raised in the callee under a handler installed by the caller.  The caller does something with the result
+# (so "left the callee" and "left the caller" differ), callee and caller are in one unit (the inliners' scope), the
+# inputs take the early exit and the normal path.  `tail_only`: every `return!` is in tail position of the callee
+# (finding K02p: a `return!` before the end of a natively compiled procedure does not return).
+
+def gen_nonlocal_control_callee(rng, tail_only=True):
+    """tail_only (finding K02p not listed): `return!` only as a whole branch in tail position of the callee with a
+    call in the other branch, and not at all in the module text (there the other branch is an inline op code)."""
+    lines, mlines, callers = [], [], []
+    for j in range(rng.randint(2, 3)):
+        kind = rng.choice(["return", "return", "callcc", "error"])
+        test = rng.choice(["(< n 0)", "(> n 5)", "(= n 3)", "(odd? n)"])
+        norm = rng.choice(["(quotient n 2)", "(+ n 1)", "(* n n)", "(list n)"])
+        flag = "'exit%d" % j
+        cc = "(call/cc (lambda (k) (if %s (k %s) %s)))" % (test, flag, norm)
+        if kind == "return":
+            if tail_only or rng.random() < 0.4:
+                body = "(if %s (return! %s) %s)" % (test, flag, norm)
+            else:
+                body = rng.choice(["(when %s (return! %s)) %s", "(begin (if %s (return! %s) 0) %s)",
+                                   "(let ((t 1)) (when %s (return! %s)) (list t %s))"]) % (test, flag, norm)
+            mbody = cc if tail_only else body
+        elif kind == "callcc":
+            body = mbody = cc
+        else:
+            body = mbody = "(if %s (error \"early\" n) %s)" % (test, norm)
+        lines.append("(define (e%d n) %s)" % (j, body))
+        mlines.append("(define (e%d n) %s)" % (j, mbody))
+        use = rng.choice(["(list 'result (e%d n))", "(cons (e%d n) 'after)", "(let ((v (e%d n))) (list v v))",
+                          "(begin (display \"<\") (let ((v (e%d n))) (display \">\") v))"]) % j
+        if kind == "error":
+            use = "(with-handler (lambda (err) (list 'handled %d)) %s)" % (j, use)
+        for ls in (lines, mlines):
+            ls.append("(define (w%d n) %s)" % (j, use))
+        callers.append("w%d" % j)
+        if rng.random() < 0.4:
+            # a second level: the caller is small too
+            for ls in (lines, mlines):
+                ls.append("(define (x%d n) (list 'outer (w%d n)))" % (j, j))
+            callers.append("x%d" % j)
+    ins = "(list %s)" % " ".join(str(rng.choice([10, -3, 7, 3, 6, 0, -1, 9])) for _ in range(rng.randint(3, 5)))
+    obs = []
+    for c in callers:
+        obs.append(rng.choice(["(map %s %s)", "(with-handler (lambda (err) 'top-handler) (map %s %s))"]) % (c, ins))
+        if rng.random() < 0.5:
+            obs.append("(%s %d)" % (c, rng.choice([-3, 7, 3])))
+    defs = "\n".join(lines)
+    # one unit (callee, caller and call in the same compilation unit) and the two-piece form
+    if rng.random() < 0.5:
+        pieces = [defs + "\n(list %s)" % " ".join(obs)]
+    else:
+        pieces = [defs, "(list %s)" % " ".join(obs)]
+    return {"pieces": pieces, "features": ["nonlocal-control-in-small-callee"],
+            "module": "\n".join(mlines) + "\n" + "\n".join("(displayln %s)" % o for o in obs) + "\n"}
+
+
+# ---------------------------------------------------------------------------------------------------------
+# n-ary arithmetic (3-6 operands) on INEXACT operands of mixed magnitude in positions the native tier reaches
+# (capture-free module-level procedures called through apply / map): floating-point addition and multiplication
+# are not associative, so the ORDER in which a helper folds its operands is observable ((+ 1e16 1.0 1.0 1.0) is
+# 1e16 from left to right and 1.0000000000000002e16 pairwise).  The printed form of a flonum is the shortest
+# string that reads back as the same double, so comparing the outputs of the configurations compares bit patterns
+# (signed zero and NaN payloads excepted).
+
+FLOAT_MIX = ["1e16", "1.0", "-1e16", "1e-8", "0.1", "0.2", "0.3", "3", "1e308", "-1e308", "1e-300", "0.5", "2.5e15", "7",
+             "9007199254740992.0", "-1.0", "1e100", "1/3", "4611686018427387904", "1.5", "1e15"]
+
+
+def gen_float_nary_program(rng):
+    lines, obs = [], []
+    nproc = rng.randint(3, 5)
+    for j in range(nproc):
+        # every program has a plain 3- and a plain 4-operand sum (the arities with helpers of their own)
+        n = 3 if j == 0 else 4 if j == 1 else rng.choice([3, 4, 5, 6])
+        ps = ["a%d" % k for k in range(n)]
+        op = "+" if j < 2 else rng.choice(["+", "+", "*", "-"])
+        shape = 0.0 if j < 2 else rng.random()
+        if shape < 0.6:
+            body = "(%s %s)" % (op, " ".join(ps))
+        elif shape < 0.8:
+            body = "(list (%s %s) (%s %s))" % (op, " ".join(ps), op, " ".join(reversed(ps)))
+        else:
+            body = "(%s (%s %s) %s)" % (rng.choice(["+", "*"]), op, " ".join(ps[:-1]), ps[-1])
+        lines.append("(define (t%d %s) %s)" % (j, " ".join(ps), body))
+        rows = []
+        for _ in range(rng.randint(3, 5)):
+            big = rng.choice(["1e16", "-1e16", "9007199254740992.0", "1e308", "2.5e15", "1e15"])
+            if rng.random() < 0.5:
+                # one operand that absorbs each of the others taken alone but not their sum, at any position
+                u = rng.choice(["1.0", "-1.0", "0.5", "1", "1e292" if big == "1e308" else "1.0"])
+                row = [u] * n
+                row[rng.choice([0, 0, n - 1, rng.randrange(n)])] = big
+            else:
+                row = [rng.choice(FLOAT_MIX) for _ in range(n)]
+                row[rng.randrange(n)] = big
+                if rng.random() < 0.5:
+                    row[rng.randrange(n)] = rng.choice(["1.0", "-1.0", "0.5", "1e-8"])
+            rows.append("(list %s)" % " ".join(row))
+        lines.append("(define rows%d (list %s))" % (j, " ".join(rows)))
+        obs.append("(map (lambda (row) (apply t%d row)) rows%d)" % (j, j))
+        if rng.random() < 0.5:
+            obs.append("(with-handler (lambda (e) 'err) (t%d %s))" % (j, " ".join(rng.choice(FLOAT_MIX) for _ in range(n))))
+    defs = "\n".join(lines)
+    return {"pieces": [defs, "(list %s)" % " ".join(obs)], "features": ["float-nary-mixed-magnitude"],
+            "module": defs + "\n" + "\n".join("(displayln %s)" % o for o in obs) + "\n"}
